@@ -117,3 +117,17 @@ def run(ctx, proofs_ok):
         {"label": "the same on Pebble", "fams": ["key", "key", "hash", "set", "zset", "str"], "n": (800, 3000), "count": (1, 6), "backend": "pebble",
          "events": {"gc": 0.1, "reopen": 0.03}},
     ])
+
+
+_run_sequential = run
+
+
+def run(ctx, proofs_ok):
+    _run_sequential(ctx, proofs_ok)
+    if ctx.violations:
+        return
+    # iterations while other clients keep using the very keys being scanned (and eviction runs)
+    from checks import conc
+    q = ctx.tier == "quick"
+    conc.run_scenarios(ctx, [("scan-concurrent", 400 if q else 4000, w) for w in ((0, 25) if q else (0, 10, 30, 60))],
+                       "full SCAN / SSCAN iterations while other clients read and write the scanned keys")
